@@ -9,7 +9,27 @@ VERIF = os.path.dirname(HERE)
 sys.path.insert(0, HERE)
 
 META = {
-    # pid: (technique, level text, level note, design ref)
+    # pid: technique (the deciding method, in a few words)
+    "C01": "MIR path walk: wire I/O sequences of preamble writers/readers vs reference tables; write_all/commit must-pass-through; typestate compile-fail witnesses",
+    "C02": "decision-table extraction over MIR + const-evaluated QPACK static table vs RFC 9204; string algebra for :authority/:path; encoder/decoder sibling cross-check",
+    "C03": "decision tables + interval obligations on datagram offset arithmetic; ownership witnesses (private payload field, no Clone)",
+    "C04": "decision-table equality of ConnectStream::run / capsule parser / error-mapping functions against the reference attribution tables; must-pass-through of driver_result.set",
+    "C05": "coroutine-layout analysis: select!-in-loop branch futures classified for partially-consumed-frame state (cancel-safety of reads); decision tables of the control-stream runners",
+    "C06": "decision tables of finish/reset/stop wrappers and error conversions (code carried unchanged); ordering rule finish-before-stopped on every path",
+    "C07": "coroutine witnesses: bounded hand-off resources owned across peer-paced awaits; worker select loop suspends only at select!, acceptor branches await no stream read",
+    "C08": "typestate/ownership: permit-before-pull ordering on every path, no dequeued value owned across a later suspension, hand-off tables, non-Clone witnesses",
+    "C09": "set-once / must-set dominance on the worker exit paths; attribution decision tables; select-branch presence (closed()) from coroutine layout; panic inventory",
+    "C10": "guard-dominance on the accepting paths of the certificate-hash verifier (all guards, polarity, comparator, constant 14 days, P-256) + who-may-construct / feature-gate witnesses",
+    "C11": "obligation discharge: every Assert/panic/index/lossy-arithmetic site reachable from the network-facing decoders is discharged by path guards (intervals) or a machine-checked lemma",
+    "C12": "decision-table equality: validate_frame / stream-type / settings / control-stream runner tables vs RFC 9114 + WebTransport draft tables (exhaustive over enum variants)",
+    "C13": "decision tables for unknown/GREASE ids (parse tables over evaluated constants, skip rows without side-effect events); resource-held-across-await witness for drains",
+    "C14": "sibling agreement writer/reader (wire sequences, thresholds, size functions) from evaluated constants and path tables; exact-slice rule on buffers",
+    "C15": "sibling cross-check of the three decoding front-ends (slice / buffer / async) + commit-only-on-success dominance + poll-state-machine rules on GetVarint/GetBuffer",
+    "C16": "emission-site rules: every emitted id/constant from the registry tables, pseudo-header ordering key, StatusCode interval invariant at every construction site",
+    "C17": "identifier algebra as evaluated constants and path tables (quarter id <-> session id), session filters on every delivery path with polarity, private-constructor witnesses",
+    "C18": "guard-dominance on request/response admission (five guards, one error each), interval invariant of StatusCode constructions, reserved-name guard and store identity",
+    "C19": "structural necessary conditions: builder chain constants (<=14 days, P-256), PEM tags, who-may-construct Certificate, parser-family token-flow and exact-length rules, formatter/parser agreement",
+    "C20": "setter-to-quinn dataflow tables for each configuration knob, representability refusal rows, builder typestate compile-fail witnesses, feature-gate witness",
 }
 
 DEFAULT_NOTE = ("Trusted: rustc nightly (type checking, MIR construction, coroutine layout, const evaluation); the "
@@ -36,11 +56,13 @@ def main():
                 "engine": "wtfacts+rules",
                 "level_claimed": {
                     "category": "other",
-                    "text": getattr(mod, "LEVEL", mod.EXPLANATION),
+                    "text": "Static decision of the structural clauses of the property on every path of the anchored functions of the current tree "
+                            "(no execution, no sampling): " + getattr(mod, "LEVEL", mod.EXPLANATION) + " This is the level static analysis can reach soundly here: "
+                            "the clauses are necessary conditions of the behaviour (breaking one breaks the behaviour); run-time quantities listed under 'Not decided' are left out rather than approximated.",
                     "design_ref": "DESIGN.md §5 %s" % pid,
                 },
                 "level_note": getattr(mod, "LEVEL_NOTE", DEFAULT_NOTE) + " Not decided: " + "; ".join(mod.NOT_DECIDED),
-                "technique": getattr(mod, "TECHNIQUE", "static analysis over rustc MIR: path-sensitive decision-table extraction compared with reference tables"),
+                "technique": "static analysis (custom rustc MIR driver + rule engine): " + META.get(pid, "path-sensitive decision-table extraction compared with reference tables"),
             })
         else:
             na.append({"property_id": pid, "reason": "check under construction in this round (design in DESIGN.md §5); not yet claimed"})
